@@ -45,6 +45,7 @@ use redo::{
 };
 
 fn main() {
+    redo::vemit!("ProcStart", "argv": env::args().collect::<Vec<String>>(), "target": env::var("REDO_TARGET").unwrap_or_default(), "pwd": env::var("REDO_PWD").unwrap_or_default(), "runid": env::var("REDO_RUNID").unwrap_or_default(), "unlocked": env::var("REDO_UNLOCKED").unwrap_or_default(), "no_oob": env::var("REDO_NO_OOB").unwrap_or_default(), "cycles": env::var("REDO_CYCLES").unwrap_or_default(), "makeflags": env::var("MAKEFLAGS").unwrap_or_default(), "ppid": std::os::unix::process::parent_id());
     let exit_code = {
         let name = env::args_os()
             .nth(0)
@@ -96,6 +97,7 @@ fn main() {
             }
         }
     };
+    redo::vemit!("Exit", "rc": exit_code);
     std::process::exit(exit_code);
 }
 
